@@ -176,7 +176,66 @@ theorem lines_roundtrip_crlf (ws : List Str) (final : Bool)
       simp only [encodeLines]
       rw [hline w _ hw, ih']
 
+/-! ## the whole run: channel → lines → dispatch → `build()` → one line of output -/
+
+/-- how the test cases arrive: as arguments, or as text that goes through `str::lines` (a file, standard input, a file named on
+standard input: `obtain_input` applies `lines` to all three) -/
+inductive CliInput where
+  | args (ws : List Str)
+  | content (t : Str)
+
+def cliCases : CliInput → List Str
+  | .args ws => ws
+  | .content t => splitLines t
+
+/-- what `main` does with a usable command line — the composition of `obtain_input`, `handle_input` and `println!` as read off
+main.rs (the guards `cliRejectsEmptyInput`, `cliErrorsBecomeMessages` are extracted from the source on every run: `cli_error_paths`;
+the binary itself is compared with the library in-process by the harness): `none` = one-line error and exit status 1,
+`some text` = `text` on standard output and exit status 0 -/
+def cliRun (env : Env) (v : CliVals) (inp : CliInput) : Except Panic (Option Str) :=
+  if cliCases inp = [] then .ok none
+  else
+    match runCliDispatch rsSetters v cliDispatch {} with
+    | .error _ => .ok none
+    | .ok cfg =>
+      match regExpFrom cfg env (cliCases inp) with
+      | .ok st => .ok (some (fmtRegExp cfg st.finalAst ++ [10]))
+      | .error e => .error e
+
+/-- the library called directly with the documented meaning of the flags -/
+def libRun (env : Env) (v : CliVals) (ws : List Str) : Except Panic (Option Str) :=
+  match regExpFrom (specCfgOfCli v) env ws with
+  | .ok st => .ok (some (fmtRegExp (specCfgOfCli v) st.finalAst ++ [10]))
+  | .error e => .error e
+
+/-- **C12 (faithful front end, arguments)** for every flag combination with positive thresholds and every non-empty list of test cases
+the CLI prints exactly the library's `build()` result for the corresponding settings followed by a newline -/
+theorem cli_is_library (env : Env) (v : CliVals) (h1 : 0 < v.minRepetitions) (h2 : 0 < v.minSubstringLength)
+    (ws : List Str) (hws : ws ≠ []) : cliRun env v (.args ws) = libRun env v ws := by
+  simp only [cliRun, cliCases, hws, ite_false, cli_dispatch v h1 h2, libRun]
+
+/-- **C12 (faithful front end, every channel)** … and the same when the test cases arrive as text with LF or CRLF line endings, with or
+without a final line break (test cases that can travel on a line of their own: no line feed inside, no carriage return at the end under
+LF; the last one non-empty unless the final line break is written) -/
+theorem cli_channels_agree (env : Env) (v : CliVals) (h1 : 0 < v.minRepetitions) (h2 : 0 < v.minSubstringLength)
+    (ws : List Str) (hws : ws ≠ []) (crlf final : Bool)
+    (h : ∀ w ∈ ws, 10 ∉ w ∧ (crlf = false → w.getLast? ≠ some 13)) (hlast : ws.getLast? ≠ some [] ∨ final = true) :
+    cliRun env v (.content (encodeLines (if crlf then [13, 10] else [10]) final ws)) = libRun env v ws := by
+  have hl : splitLines (encodeLines (if crlf then [13, 10] else [10]) final ws) = ws := by
+    cases crlf with
+    | true => exact lines_roundtrip_crlf ws final (fun w hw => (h w hw).1) hlast
+    | false => exact lines_roundtrip_lf ws final (fun w hw => ⟨(h w hw).1, (h w hw).2 rfl⟩) hlast
+  rw [← cli_is_library env v h1 h2 ws hws]
+  simp only [cliRun, cliCases, hl]
+  try rfl
+
+/-- **C12 (no test cases)** an empty file, empty standard input or no usable line ends with the one-line error, on every channel -/
+theorem cli_empty_input (env : Env) (v : CliVals) : cliRun env v (.content []) = .ok none ∧ cliRun env v (.args []) = .ok none := by
+  constructor <;> simp [cliRun, cliCases, splitLines, splitLines.go]
+
 /-! non-vacuity -/
+example : (match cliRun { lowerOf := id, segOf := fun w => w.map fun c => [c] } { digits := true } (.content (strOf "a1\r\nb\r\n")) with
+    | .ok (some _) => true | _ => false) = true := by decide +kernel
 example : splitLines (encodeLines [13, 10] true [strOf "a", strOf "b c", []]) = [strOf "a", strOf "b c", []] := by decide
 example : splitLines (encodeLines [10] false [strOf "a", [], strOf "b"]) = [strOf "a", [], strOf "b"] := by decide
 example : runCliDispatch rsSetters { escape := true, withSurrogates := true, noAnchors := true } cliDispatch {} =
